@@ -1520,6 +1520,12 @@ class FnTrans:
             if isinstance(c, dict): self.write_fields(c, root, acc)
         return acc
 
+    def order_carried(self, assigned, env):
+        """order of the loop-carried variables in the state tuple: alphabetical (default, what the existing bridges expect) or, with
+        job["state_order"] = "decl", the order in which the variables came into scope — stable under renaming"""
+        if self.job.get("state_order") == "decl": return [v for v in env if v in assigned]
+        return sorted(v for v in assigned if v in env)
+
     def loop_body(self, body, benv, carried, ind):
         """translate a loop body whose result is the tuple of carried variables; `continue` = end of this iteration"""
         fin = lambda e: (self.state_pack([e[c]["lean"] for c in carried]), "true")
@@ -1575,7 +1581,7 @@ class FnTrans:
         assigned = self.assigned_vars(body, set())
         if oname in assigned: raise Unsupported("%s: iterator assigned in the loop body" % self.name)
         if self.vars_read(cnode) & assigned: raise Unsupported("%s: the loop body changes the container it iterates over" % self.name)
-        carried = sorted(v for v in assigned if v in env)
+        carried = self.order_carried(assigned, env)
         if not carried: raise Unsupported("%s: loop without effect" % self.name)
         ctys = [env[c]["type"] for c in carried]
         benv = dict(env)
@@ -1627,7 +1633,7 @@ class FnTrans:
         cond, body = parts[0], parts[1]
         if self.has_return(body): raise Unsupported("%s: return inside a while loop" % self.name)
         assigned = self.assigned_vars(body, set())
-        carried = sorted(v for v in assigned if v in env)
+        carried = self.order_carried(assigned, env)
         if not carried: raise Unsupported("%s: while loop without effect" % self.name)
         ctys = [env[c]["type"] for c in carried]
         benv = dict(env)
@@ -1682,7 +1688,7 @@ class FnTrans:
         `forRange (fun i state => body) (bound - e0) e0 state`, state = the variables the body assigns"""
         pad = "  " * ind
         iname, i0, bound, phdr, body, assigned = self.for_header(s, env)
-        carried = sorted(v for v in assigned if v in env)
+        carried = self.order_carried(assigned, env)
         if not carried: raise Unsupported("%s: loop without effect" % self.name)
         ctys = [env[c]["type"] for c in carried]
         benv = dict(env)
@@ -1769,7 +1775,7 @@ class FnTrans:
         if it.get("kind") != "UnaryOperator" or it.get("opcode") != "++": raise Unsupported("%s: for-inc" % self.name)
         assigned = self.assigned_vars(body, set())
         if iname in assigned: raise Unsupported("%s: loop index assigned in body" % self.name)
-        carried = sorted(v for v in assigned if v in env)
+        carried = self.order_carried(assigned, env)
         self.nloops += 1
         hname = "%s_loop%d" % (self.name, self.nloops)
         fixed = [(c, env[c]["lean"], env[c]["type"]) for c in env if c not in carried]
